@@ -82,6 +82,9 @@ func checkC10(c *Ctx, r *Report) {
 	borrow(c, r, c19Derived, "C19.R2.walk", "C10.R3.label-count", 1, "CountLabel (the RRSIG Labels field, the wildcard test) counts the label starts NextLabel finds", func(k string) bool { return k == "CountLabel" }, "Sign writes a Labels value that disagrees with the labels rawSignatureData splits the owner into: a signature that covers other names, or a valid one refused")
 	r.rule("C10.R1.ecdsa-widths", 1, "ECDSA keys are read with RFC 6605's coordinate widths per algorithm")
 	ecdsaWidths(c, r, "C10.R1.ecdsa-widths")
+	r.rule("C10.R1.ed25519-key-length", 1, "publicKeyED25519 returns a key only when it is exactly 32 octets long")
+	ed25519KeyLength(c, r, "C10.R1.ed25519-key-length")
+	noPackageState(c, r, "C10.R1.key-from-record", []string{"DNSKEY.publicKeyRSA", "DNSKEY.publicKeyECDSA", "DNSKEY.publicKeyED25519"}, "signatures are checked against a key decoded earlier from another DNSKEY with the same name, algorithm and tag")
 }
 
 // c17R6as runs the RSA size-limit rule under another rule id (shared by C10, C17, C18).
